@@ -104,9 +104,11 @@ def judge(rec, pvl, reader, toks, wit, holder):
         rest = "".join(x.text for x in toks[i + 1:])
         if (t.cls == "open-double-quote" and '"' in rest) or \
                 (t.cls == "open-single-quote" and "'" in rest) or \
-                (t.cls == "open-comment" and "*/" in rest):
-            # (an opened units expression is different: whatever '>' ends it,
-            # the lexeme contains a second '<', which no units expression may)
+                (t.cls == "open-comment" and "*/" in rest) or \
+                (t.cls == "open-units" and ">" in rest
+                 and "<" not in rest[:rest.index(">")]):
+            # (an opened units expression that runs into the '<' of a later one
+            # is NOT ambiguous: no units expression may contain '<')
             ref = ("ambiguous", "opening delimiter closed by a later token", None)
             break
     rec.count(f"ref[{ref[0]}]")
